@@ -76,3 +76,12 @@ chk("C09", "static analysis: per-type MIR step tables, one-step iterator decisio
     "all pairs of every width are covered.",
     "Trusted: rustc MIR. History equivalence follows from the one-step relation by the simulation "
     "exhausted <=> (start,end)=(MAX,MIN) (written, DESIGN.md App. C); chr::from_u32 on the produced scalars is C07.")
+chk("C07", "static analysis: exact value sets, bit-provenance abstract interpretation, one-step MIR decision tables",
+    "from_u32's accepted set is computed exactly from its branch conditions and must be the Unicode scalar values with the "
+    "payload being that same value; for each UTF-8 length class the encoder's arm range must be std's and every output byte "
+    "must be marker bits | the right payload bits of the scalar (bit provenance through shifts/masks/casts); the decoder "
+    "string_to_usv composed with the encoder must be the identity on the scalar's bits for each length; the next/next_back "
+    "of Chars/CharIndices (and the R* twins by isomorphism) are one-step tables (item, remainder, byte offsets) with the "
+    "boundary search opaque, and the two boundary searches are checked as one-iteration relations (move by one, stop on the "
+    "forgiving boundary predicate decided in C03). Covers every char/u32 and all strings symbolically.",
+    "Trusted: rustc MIR; char <= 10FFFF type invariant. The boundary-search loops are decided as one-iteration relations only.")
